@@ -91,19 +91,22 @@ Proof. exact ub_exact. Qed.
 Lemma read_bound_is_prefix_successor : view_incbytes_keeps_length = false.
 Proof. reflexivity. Qed.
 
-(* FULL STATEMENT (what C08 asks of the code, on every backend, nk any):
+(* FULL STATEMENT (what C08 asks of the code, on every backend nk, for every view layout):
      forall nk views st s ws q, reg_ok views -> typed views st -> parts_sorted st -> In s views ->
-       ws < 2^64 -> validate_key s true q = true -> wf_key s q ->
+       ws < 2^64 -> key_shape_ok s true q = true -> wf_key s q ->
        exists rows, view_read view_incbytes_keeps_length nk st s ws q = (0, rows) /\
          (forall r, In r rows <-> exists k, full_key s k /\ k_p k = k_p q /\ key_matches q k = true
                                             /\ stored st s ws k (r_n r) /\ r = row_of k (r_n r)) /\
          ascending (map (fun r => enc_ccols s (key_of_row r)) rows).
-   The faithful model refutes it for nk = true: partial_read_nullkey_refuted (finding F2 seen
-   through views: bbolt returns stored clustering columns {0x00} as empty).  The theorem below
-   carries exactly the hypothesis that excludes this witness. *)
+   The faithful model refutes it twice: partial_read_nullkey_refuted (finding F2 seen through
+   views: bbolt returns stored clustering columns {0x00} as empty) and partial_read_minlen_refuted
+   (finding F24: the prefix given for the trailing column is checked against the column's
+   constraints as if it were a complete value, so a prefix shorter than MinLen is refused).
+   The theorem below carries exactly the two hypotheses that exclude these witnesses. *)
 Theorem partial_read_exact_partial : forall nk views (st : vstore) s ws q,
   reg_ok views -> typed views st -> parts_sorted st -> In s views -> ws < 2 ^ 64 ->
-  validate_key s true q = true -> wf_key s q ->
+  key_shape_ok s true q = true -> wf_key s q ->
+  constraint_ok s q = true ->
   (nk = false \/ raw_lookup st (enc_pkey s ws q) [0] = None) ->
   exists rows, view_read view_incbytes_keeps_length nk st s ws q = (0, rows) /\
     (forall r, In r rows <->
@@ -111,26 +114,41 @@ Theorem partial_read_exact_partial : forall nk views (st : vstore) s ws q,
                  /\ stored st s ws k (r_n r) /\ r = row_of k (r_n r)) /\
     ascending (map (fun r => enc_ccols s (key_of_row r)) rows).
 Proof.
-  exact (fun nk views st s ws q R T S I W V K =>
-           partial_read_exact_gen view_incbytes_keeps_length nk views st s ws q R T S I W V K
+  exact (fun nk views st s ws q R T S I W V K C =>
+           partial_read_exact_shape view_incbytes_keeps_length nk views st s ws q R T S I W V K C
              (or_introl read_bound_is_prefix_successor)).
 Qed.
 
-(* the full statement, without any extra hypothesis, on backends that return {0x00} as stored
-   (mem, cache over mem): every partial key, trailing prefixes ending in 0xff included *)
+(* the full statement, without any extra hypothesis, for trailing columns without a MinLen
+   constraint on backends that return {0x00} as stored (mem, cache over mem): every partial key,
+   trailing prefixes ending in 0xff included *)
 Theorem partial_read_exact : forall views (st : vstore) s ws q,
   reg_ok views -> typed views st -> parts_sorted st -> In s views -> ws < 2 ^ 64 ->
-  validate_key s true q = true -> wf_key s q ->
+  s_vmin s = 0 ->
+  key_shape_ok s true q = true -> wf_key s q ->
   exists rows, view_read view_incbytes_keeps_length false st s ws q = (0, rows) /\
     (forall r, In r rows <->
        exists k, full_key s k /\ k_p k = k_p q /\ key_matches q k = true
                  /\ stored st s ws k (r_n r) /\ r = row_of k (r_n r)) /\
     ascending (map (fun r => enc_ccols s (key_of_row r)) rows).
 Proof.
-  exact (fun views st s ws q R T S I W V K =>
-           partial_read_exact_gen view_incbytes_keeps_length false views st s ws q R T S I W V K
-             (or_introl read_bound_is_prefix_successor) (or_introl eq_refl)).
+  exact (fun views st s ws q R T S I W M V K =>
+           partial_read_exact_shape view_incbytes_keeps_length false views st s ws q R T S I W V K
+             (constraint_ok_nomin s q M) (or_introl read_bound_is_prefix_successor) (or_introl eq_refl)).
 Qed.
+
+(* a batch get is the list of the single gets: any number of keys, partitions, repetitions *)
+Theorem batch_get_is_pointwise : forall (st : vstore) ws items res,
+  view_get_batch st ws items = Some res ->
+  length res = length items /\
+  forall i s k, nth_error items i = Some (s, k) -> nth_error res i = Some (view_get st s ws k).
+Proof. exact batch_get_is_pointwise_proved. Qed.
+
+(* ... and it is served whenever every key is a complete key *)
+Theorem batch_get_accepts : forall (st : vstore) ws items,
+  Forall (fun it => validate_key (fst it) false (snd it) = true) items ->
+  view_get_batch st ws items = Some (map (fun it => view_get st (fst it) ws (snd it)) items).
+Proof. exact batch_get_accepts_proved. Qed.
 
 (* about the bound used before the fix (keeps = true, utils.IncBytes), kept so that the reason for
    the fix stays checked: exact only for trailing prefixes not ending in 0xff *)
@@ -153,9 +171,9 @@ Proof. exact ascending_rows_NoDup. Qed.
 
 (* ---- witnesses and non-vacuity ---- *)
 
-Definition ex_s1 := mkSchema 300 [KI16] [KI8] true.
-Definition ex_s2 := mkSchema 301 [KI16] [KI8] true.
-Definition ex_s3 := mkSchema 302 [KI64; KBool] [KBool] false.
+Definition ex_s1 := mkSchema 300 [KI16] [KI8] true 0.
+Definition ex_s2 := mkSchema 301 [KI16] [KI8] true 0.
+Definition ex_s3 := mkSchema 302 [KI64; KBool] [KBool] false 0.
 Definition ex_views := [ex_s1; ex_s2; ex_s3].
 Definition ex_key (p c : N) (v : bytes) := mkKey [Some p] [Some c] v.
 Definition ex_ops : list wop :=
@@ -213,15 +231,35 @@ Example partial_read_nullkey_refuted :
   /\ view_read view_incbytes_keeps_length false ex_st ex_s3 7 q = (0, [mkRRow [18446744073709551615; 1] [0] [] 18]).
 Proof. vm_compute. repeat split; auto; discriminate. Qed.
 
+(* F24: the trailing column has MinLen 3; the row ab cd is stored; the partial key with the
+   prefix ab is a partial key in the sense of the property, yet the read is refused (code 9),
+   while the prefix abc is served *)
+Example partial_read_minlen_refuted :
+  let s := mkSchema 303 [KI8] [KI8] true 3 in
+  let st := run_wops [] [WPut s 1 (mkKey [Some 1] [Some 1] [97; 98; 99; 100]) 5] in
+  let q := mkKey [Some 1] [Some 1] [97; 98] in
+  key_shape_ok s true q = true /\ constraint_ok s q = false
+  /\ view_read view_incbytes_keeps_length false st s 1 q = (9, [])
+  /\ view_read view_incbytes_keeps_length false st s 1 (mkKey [Some 1] [Some 1] [97; 98; 99])
+     = (0, [mkRRow [1] [1] [97; 98; 99; 100] 5]).
+Proof. vm_compute. auto. Qed.
+
+Example batch_get_nonvacuous :
+  let k := ex_key 65535 1 [255; 255] in
+  view_get_batch ex_st 7 [(ex_s1, k); (ex_s2, k); (ex_s1, ex_key 65535 3 [1]); (ex_s1, k)]
+  = Some [GVal 12; GVal 14; GNone; GVal 12]
+  /\ view_get_batch ex_st 7 [(ex_s1, k); (ex_s1, ex_key 65535 1 [])] = None.
+Proof. vm_compute. auto. Qed.
+
 (* the hypothesis of partial_read_exact_partial is met on a bbolt-like backend by a partial key of
    one fixed column and by trailing prefixes, one of them ending in 0xff *)
 Example partial_read_nonvacuous :
   let q1 := mkKey [Some 65535] [Some 1] [] in
   let q2 := ex_key 65535 1 [255] in
-  validate_key ex_s1 true q1 = true /\ raw_lookup ex_st (enc_pkey ex_s1 7 q1) [0] = None
+  key_shape_ok ex_s1 true q1 = true /\ constraint_ok ex_s1 q1 = true /\ raw_lookup ex_st (enc_pkey ex_s1 7 q1) [0] = None
   /\ view_read view_incbytes_keeps_length true ex_st ex_s1 7 q1
      = (0, [mkRRow [65535] [1] [255; 254; 255] 17; mkRRow [65535] [1] [255; 255] 12; mkRRow [65535] [1] [255; 255; 9] 11])
-  /\ validate_key ex_s1 true q2 = true /\ ends_ff (k_v q2) = true
+  /\ key_shape_ok ex_s1 true q2 = true /\ ends_ff (k_v q2) = true
   /\ view_read view_incbytes_keeps_length true ex_st ex_s1 7 q2
      = (0, [mkRRow [65535] [1] [255; 254; 255] 17; mkRRow [65535] [1] [255; 255] 12; mkRRow [65535] [1] [255; 255; 9] 11])
   /\ view_read view_incbytes_keeps_length true ex_st ex_s1 7 (ex_key 65535 1 [255; 254])
@@ -260,6 +298,9 @@ Print Assumptions prefix_is_range.
 Print Assumptions partial_read_exact_partial.
 Print Assumptions partial_read_exact.
 Print Assumptions partial_read_exact_any_bound.
+Print Assumptions batch_get_is_pointwise.
+Print Assumptions batch_get_accepts.
+Print Assumptions partial_read_minlen_refuted.
 Print Assumptions read_rows_once.
 Print Assumptions partial_read_old_bound_refuted.
 Print Assumptions partial_read_nullkey_refuted.
